@@ -1,0 +1,39 @@
+//go:build verif
+
+package proxy
+
+import (
+	"go.temporal.io/server/client/history"
+)
+
+// Verification hooks (build tag "verif" only): thin exported wrappers around unexported
+// pieces that the /verif correspondence harness drives directly. Nothing here changes behaviour.
+
+// VerifRing wraps proxyIDRingBuffer.
+type VerifRing struct{ b *proxyIDRingBuffer }
+
+func VerifNewRing(capacity int) *VerifRing { return &VerifRing{b: newProxyIDRingBuffer(capacity)} }
+
+func (r *VerifRing) Append(proxyID int64, cluster, shard int32, task int64) {
+	r.b.Append(proxyID, history.ClusterShardID{ClusterID: cluster, ShardID: shard}, task)
+}
+
+func (r *VerifRing) AggregateUpTo(w int64) (map[history.ClusterShardID]int64, int) {
+	return r.b.AggregateUpTo(w)
+}
+
+func (r *VerifRing) Discard(n int) { r.b.Discard(n) }
+
+// View returns (head, size, maxSize, cap, start) and the physical entries.
+func (r *VerifRing) View() (head, size, maxSize, capacity int, start int64, entries [][3]int64) {
+	entries = make([][3]int64, len(r.b.entries))
+	for i, e := range r.b.entries {
+		entries[i] = [3]int64{int64(e.sourceShard.ClusterID), int64(e.sourceShard.ShardID), e.sourceTask}
+	}
+	return r.b.head, r.b.size, r.b.maxSize, len(r.b.entries), r.b.startProxyID, entries
+}
+
+// VerifMapShardIDUnique exposes mapShardIDUnique (panics exactly when the original does).
+func VerifMapShardIDUnique(sourceShardCount, targetShardCount, sourceShardID int32) int32 {
+	return mapShardIDUnique(sourceShardCount, targetShardCount, sourceShardID)
+}
